@@ -18,6 +18,7 @@ PRT = POOL + "parent_ready_tracker::ParentReadyTracker"
 PRS = POOL + "parent_ready_tracker::parent_ready_state::ParentReadyState"
 PI = POOL + "PoolImpl"
 FT = POOL + "finality_tracker::FinalityTracker"
+A_SLOT = "alpenglow::types::slot::Slot::"
 
 
 def check(run, prefix="O7"):
@@ -55,6 +56,10 @@ def check(run, prefix="O7"):
             g = G.has_guard(prog, b, c.bb, pred="bool", polarity=True, calls=["Slot::is_start_of_window"])
             ok = g is not None and (slot_t is None or g[1][0][2][0] == slot_t)
             o2.check(bool(ok), key + "|window-start", "add_to_ready only when that slot is the start of a window", c.span, {"guards": K.show_atoms(prog, b, c.bb)})
+            rec = [lambda a: a[0] == "lt" and a[2] is False and any(K.mentions_field(x, "root", "ParentReadyTracker") for x in a[1]),
+                   lambda a: a[0] == "bool" and a[2] is True and a[1][0][0] == "call" and a[1][0][1] in (PRS + "::mark_notar_fallback", PRS + "::mark_skip", A_SLOT + "is_start_of_window")]
+            extra = D.extra_guards(prog, b, c.bb, rec)
+            o2.check(not extra, key + "|no-extra-condition", "no further condition suppresses a ready parent ('exactly when')", c.span, {"extra": G.atoms_show(extra)})
         for p, key in K.ordinal_keys(ret_pushes, lambda c: "ParentReadyTracker::%s|push" % fn):
             if b.operand_term(p.args[1])[1][0][0] in ("local", "param") and False:
                 continue
